@@ -19,10 +19,22 @@ class RecordingDecoder(object):
     def __init__(self, real):
         self.real = real
         self.seen = []
+        self.objs = []
 
     def decode(self, data):
         self.seen.append(bytes(data))
-        return self.real.decode(data)
+        result = self.real.decode(data)
+        if result is not None:
+            self.objs.append((result, bytes(data)))      # keep the object alive: identity -> PDU bytes
+        return result
+
+    def pdu_of(self, message):
+        """The PDU bytes the given delivered message object was decoded from (a framer may decode several
+        frames of one read before it delivers any of them)."""
+        for obj, data in self.objs:
+            if obj is message:
+                return data
+        return None
 
     def lookupPduClass(self, function_code):
         return self.real.lookupPduClass(function_code)
